@@ -30,21 +30,66 @@ SELF_IP, PEER = "10.0.0.1", "10.0.0.2"
 TTLS = [1, 2, 5, 120, 4500]
 
 
+def txt_bytes(d):
+    """the TXT rdata `ServiceInfo` builds from a properties dict"""
+    out = b""
+    for k, v in d.items():
+        k = k.encode() if isinstance(k, str) else k
+        v = v.encode() if isinstance(v, str) else v
+        e = k if v is None else k + b"=" + v
+        out += bytes([len(e)]) + e
+    return out or b"\x00"
+
+
+# what the application registers (review 3): [addresses], TXT, instance-name prefix, host names
+API_PROFILES = [
+    (["10.0.0.1"], None, "s", ["ha.local.", "HA.local.", "hb.local."]),
+    (["10.0.0.1", "fe80::1"], None, "s", ["ha.local.", "HA.local.", "hb.local."]),
+    (["10.0.0.1", "10.0.1.1", "fe80::1", "2001:db8::1", "fd00::1:2"], txt_bytes(B.BIN_TXT).hex(), "s", ["ha.local.", "hb.local."]),
+    (["fe80::1", "2001:db8::1"], txt_bytes(B.LONG_TXT).hex(), "caf\u00e9 \u65e5\u672c ", ["h\u00e4-\u65e5.local.", "hb.local."]),
+    (["2001:db8::1", "10.0.0.1"], txt_bytes(B.BIN_TXT).hex(), "\u2615 b\u00fcro ", [None, "h\u00f6st.local."]),
+    (["10.0.1.1", "10.0.0.1"], "00", "n" * 62, ["\u65e5" * 20 + "abc.local."]),
+]
+
+
+def reg_step(rng, prof, k, port):
+    addrs, text, prefix, servers = API_PROFILES[prof]
+    st_ = {"op": "register", "name": "%s%d.%s" % (prefix, k, TA), "type": TA, "server": rng.choice(servers), "port": port, "coop": True, "addrs": list(addrs)}
+    if text is not None:
+        st_["text"] = text
+    return st_
+
+
 def gen_scenario(seed, idx):
     rng = C.rng_for(seed, "c15api", idx)
     steps = []
     if rng.random() < 0.7:
         steps.append({"op": "user"})
+    prof = rng.randrange(len(API_PROFILES))
+    prefix = API_PROFILES[prof][2]
+    host0 = API_PROFILES[prof][3][0] or (prefix + "1." + TA)
     nsvc = rng.choice([0, 1, 1, 2])
     for i in range(nsvc):
-        steps.append({"op": "register", "name": "s%d.%s" % (i + 1, TA), "type": TA, "server": rng.choice(["ha.local.", "HA.local.", "hb.local."]),
-                      "port": 80 + i, "coop": True})
+        steps.append(reg_step(rng, prof, i + 1, 80 + i))
     insts = ["i1", "i2", "Inst3", "i4"]
     live_b = 0
     live_s = nsvc
     for _ in range(rng.choice([6, 12, 20, 30])):
         k = rng.choice(["ann", "ann", "ann", "bye", "query", "browser", "cancel", "lookup", "register", "unregister", "update", "sleep", "sleep",
-                        "hostile", "addr", "txt"])
+                        "hostile", "addr", "txt", "user", "tcq"])
+        if k == "user":
+            # a second user listener comes and (sometimes) goes: blocks `addUser` / `removeUser`
+            steps.append({"op": "user"} if rng.random() < 0.5 else {"op": "unuser", "i": rng.randrange(4)})
+            continue
+        if k == "tcq":
+            # a truncated query (deferred; its timer fires 400-500 ms later: block `tcFire`), sometimes followed by the closing packet
+            src = [rng.choice([PEER, "10.0.0.9"]), rng.choice([5353, 40000])]
+            steps.append({"op": "deliver", "kind": "raw", "src": src,
+                          "data": (B.hdr(rng.randrange(65536), 0x0200, 1) + B.q(B.labels_of(rng.choice([TA, prefix + "1." + TA])), rng.choice([12, 33]))).hex()})
+            steps.append({"op": "sleep", "ms": rng.choice([0, 100, 450, 600])})
+            if rng.random() < 0.4:
+                steps.append({"op": "deliver", "kind": "raw", "src": src, "data": (B.hdr(rng.randrange(65536), 0, 1) + B.q(B.labels_of(TA), 12)).hex()})
+            continue
         if k == "ann":
             steps.append({"op": "deliver", "kind": "ann", "inst": rng.choice(insts), "type": rng.choice(TYPES), "ttl": rng.choice(TTLS),
                           "host_ttl": rng.choice(TTLS), "host": rng.choice(["hx.local.", "hy.local."]), "port": rng.choice([81, 82])})
@@ -58,8 +103,15 @@ def gen_scenario(seed, idx):
             steps.append({"op": "deliver", "kind": "txt", "inst": rng.choice(insts), "type": rng.choice(TYPES), "ttl": rng.choice(TTLS),
                           "txt": rng.choice(["036b3d76", "036b3d77", "00"])})
         elif k == "query":
-            steps.append({"op": "deliver", "kind": "query", "name": rng.choice([TA, "s1." + TA, "ha.local.", "_services._dns-sd._udp.local."]),
-                          "qtype": rng.choice([12, 33, 16, 1, 255]), "port": rng.choice([5353, 5353, 40000]), "qu": rng.random() < 0.3})
+            st_ = {"op": "deliver", "kind": "query", "name": rng.choice([TA, prefix + "1." + TA, host0, host0, "_services._dns-sd._udp.local."]),
+                   "qtype": rng.choice([12, 33, 16, 1, 1, 28, 28, 255]), "port": rng.choice([5353, 5353, 40000]), "qu": rng.random() < 0.3}
+            if rng.random() < 0.35:
+                # known answers: the host's address records (right and wrong), heard on an IPv6 socket (4-tuple source) or an IPv4 one
+                st_["ka"] = [[host0, 28 if ":" in a else 1, (socket.inet_pton(socket.AF_INET6, a) if ":" in a else socket.inet_aton(a)).hex(), rng.choice([120, 60, 1])]
+                             for a in rng.sample(API_PROFILES[prof][0] + ["10.0.0.77", "fe80::77"], rng.choice([1, 2]))]
+                if rng.random() < 0.6:
+                    st_["src"] = [rng.choice(["fe80::2", "fe80::9"]), st_["port"], 0, rng.choice([0, 3])]
+            steps.append(st_)
         elif k == "hostile":
             steps.append({"op": "deliver", "kind": "hostile", "n": rng.randrange(1 << 30)})
         elif k == "browser":
@@ -72,8 +124,7 @@ def gen_scenario(seed, idx):
             steps.append({"op": "lookup", "inst": rng.choice(insts), "type": rng.choice(TYPES), "timeout": rng.choice([200, 1500, 3000])})
         elif k == "register":
             live_s += 1
-            st_ = {"op": "register", "name": "s%d.%s" % (rng.choice([1, 2, 3, 4]), TA), "type": TA, "server": rng.choice(["ha.local.", "hc.local."]),
-                   "port": 90, "coop": True}
+            st_ = reg_step(rng, prof, rng.choice([1, 2, 3, 4]), 90)
             if rng.random() < 0.12:
                 # arguments at and over what the encoder can write (D28): 63/64-byte server labels (ASCII and 3-byte UTF-8), port 65535/65536
                 st_["server"], st_["port"] = rng.choice([("h" * 63 + ".local.", 90), ("h" * 64 + ".local.", 90), ("\u20ac" * 21 + ".local.", 90),
@@ -117,7 +168,9 @@ def packet_of(step, rng_hostile):
         owner = B.wname([step["inst"].encode()] + B.labels_of(step["type"]))
         return B.hdr(0, 0x8400, 0, 1) + B.rr(owner, 16, 0x8001, step["ttl"], bytes.fromhex(step["txt"]))
     if k == "query":
-        return B.hdr(step.get("id", 77), 0, 1) + B.q(B.labels_of(step["name"]), step["qtype"], 0x8001 if step.get("qu") else 1)
+        ka = step.get("ka", [])
+        return (B.hdr(step.get("id", 77), 0, 1, len(ka)) + B.q(B.labels_of(step["name"]), step["qtype"], 0x8001 if step.get("qu") else 1)
+                + b"".join(B.rr(B.wname(B.labels_of(o)), t, 0x8001, ttl, bytes.fromhex(rd)) for o, t, rd, ttl in ka))
     if k == "hostile":
         import random
         r = random.Random(step["n"])
@@ -226,8 +279,9 @@ def simulate(sc):
         return b
 
     def svc_fields(info):
+        ipv = __import__("zeroconf").IPVersion
         return {"name": info.name, "type": info.type, "server": info.server or info.name, "port": info.port or 0, "text": (info.text or b"").hex(),
-                "v4": (info.addresses_by_version(__import__("zeroconf").IPVersion.V4Only) or [b"\x00\x00\x00\x00"])[0].hex()}
+                "v4": [a.hex() for a in info.addresses_by_version(ipv.V4Only)], "v6": [a.hex() for a in info.addresses_by_version(ipv.V6Only)]}
 
     def w_add(orig):
         def f(self, info):
@@ -277,7 +331,8 @@ def simulate(sc):
                 elif isinstance(listener, inf.ServiceInfo):
                     st["lookups"].append(listener)
                 elif isinstance(listener, RecordUpdateListener):
-                    log("a")
+                    log("a")      # (the snapshot that closes the previous block is taken here: the new user joins the list afterwards)
+                    st["users"].append(listener)
             return orig(self, listener, question)
         return f
 
@@ -292,6 +347,10 @@ def simulate(sc):
                     j = st["lookups"].index(listener)
                     st["lookups"].pop(j)
                     log("f", j=j)
+                elif listener in st["users"]:
+                    i = st["users"].index(listener)
+                    log("d", i=i)
+                    st["users"].pop(i)
             return orig(self, listener)
         return f
 
@@ -300,6 +359,13 @@ def simulate(sc):
             if zc is st["zc"] and zc.started:
                 log("l", name=self.name)
             return await orig(self, zc, timeout, *a, **k)
+        return f
+
+    def w_tc(orig):
+        def f(self, msg, addr, port, transport, v6):
+            if msg is None and st["on"] and not st.get("in_recv"):
+                log("t", addr=addr)       # the timer of a deferred truncated query fired: block `tcFire`
+            return orig(self, msg, addr, port, transport, v6)
         return f
 
     def w_cleanup(orig):
@@ -358,6 +424,8 @@ def simulate(sc):
         patch(rmm.RecordManager, "async_remove_listener", w_reml)
         patch(inf.ServiceInfo, "async_request", w_request)
         patch(eng.AsyncEngine, "_async_cache_cleanup", w_cleanup)
+        import zeroconf._listener as lsm
+        patch(lsm.AsyncListener, "_respond_query", w_tc)
         a = sim.make_host("A", SELF_IP)
         zc = a.zc
         st["zc"] = zc
@@ -369,6 +437,7 @@ def simulate(sc):
             if a.transport is None or a.transport.closed:
                 return
             b = log("r", data=data.hex(), addr=src[0], port=src[1])
+            st["in_recv"] = True
             try:
                 with B.Guard(B.HANG_S):
                     lst.datagram_received(data, src)
@@ -382,7 +451,10 @@ def simulate(sc):
                     b["raised"] = B.exc_name(e)
                 obs["escapes"].append({"exc": B.exc_name(e), "block": len(obs["blocks"]) - 1, "len": len(data), "msg": str(e)[:80]})
                 if not top:
+                    st["in_recv"] = False
                     raise
+            finally:
+                st["in_recv"] = False
 
         a.deliver = lambda data, src: deliver(data, src, top=False)
         infos, tasks, pending = [], [], []
@@ -393,10 +465,13 @@ def simulate(sc):
             try:
                 if op == "user":
                     u = User(step.get("raises"))
-                    st["users"].append(u)
                     zc.async_add_listener(u, None)
+                elif op == "unuser":
+                    if st["users"]:
+                        zc.async_remove_listener(st["users"][step["i"] % len(st["users"])])
                 elif op == "register":
-                    info = ServiceInfo(step["type"], step["name"], step["port"], addresses=[socket.inet_aton(SELF_IP)], server=step.get("server"),
+                    addrs = [socket.inet_pton(socket.AF_INET6, x) if ":" in x else socket.inet_aton(x) for x in step.get("addrs", [SELF_IP])]
+                    info = ServiceInfo(step["type"], step["name"], step["port"], addresses=addrs, server=step.get("server"),
                                        properties=bytes.fromhex(step["text"]) if "text" in step else {"k": "v"})
                     st["strict"] = step.get("strict", True)
                     try:
@@ -497,7 +572,9 @@ def op_line(b):
     if o == "r":
         return "r %d 0 %s %d %s" % (b["t"], hs(b["addr"]), b["port"], C.hx(bytes.fromhex(b["data"])))
     if o in ("g", "u", "x"):
-        s = "%s %s %s %s %d %s %s" % (o, hs(b["name"]), hs(b["type"]), hs(b["server"]), b["port"], C.hx(bytes.fromhex(b["text"])), C.hx(bytes.fromhex(b["v4"])))
+        s = "%s %s %s %s %d %s" % (o, hs(b["name"]), hs(b["type"]), hs(b["server"]), b["port"], C.hx(bytes.fromhex(b["text"])))
+        for k in ("v4", "v6"):
+            s += " %d" % len(b[k]) + "".join(" " + C.hx(bytes.fromhex(a)) for a in b[k])
         return s + (" %d" % (1 if b["strict"] else 0) if o == "g" else "")
     if o == "b":
         return "b %d %d %s" % (b["t"], len(b["types"]), " ".join(hs(t) for t in b["types"]))
@@ -511,6 +588,10 @@ def op_line(b):
         return "p %d" % b["t"]
     if o == "a":
         return "a"
+    if o == "d":
+        return "d %d" % b["i"]
+    if o == "t":
+        return "t %s" % hs(b["addr"])
     raise ValueError(o)
 
 
@@ -540,7 +621,7 @@ def judge(obs, sc=None):
     unsafe = sc is not None and unsafe_scenario(sc)
     for e in obs["escapes"]:
         if e["exc"] == "HangDetected":
-            bad.append(("C15:hang", "a call into the library did not return within the wall-clock budget (api stream, block %d, %d bytes): an unbounded loop" % (e["block"], e["len"])))
+            bad.append(("C15:hang", "a call into the library did not return within the CPU-time budget (api stream, block %d, %d bytes): an unbounded loop" % (e["block"], e["len"])))
             continue
         if unsafe and e["exc"] in ENC_EXC:
             bad.append((D28_SIG, D28_WHAT % (e["exc"], "datagram_received (block %d)" % e["block"])))
@@ -548,7 +629,7 @@ def judge(obs, sc=None):
             bad.append(("C15:escape:%s" % e["exc"], "%s escaped datagram_received (api stream, block %d, %d bytes)" % (e["exc"], e["block"], e["len"])))
     for e in obs["errors"]:
         if e["exc"] == "HangDetected":
-            bad.append(("C15:hang", "a timer callback or task step did not return within the wall-clock budget (api stream): %s" % e["where"][:60]))
+            bad.append(("C15:hang", "a timer callback or task step did not return within the CPU-time budget (api stream): %s" % e["where"][:60]))
             continue
         if unsafe and e["exc"] in ENC_EXC:
             bad.append((D28_SIG, D28_WHAT % (e["exc"], "a timer callback (%s)" % e["where"][:60])))
@@ -566,14 +647,14 @@ def judge(obs, sc=None):
     return bad
 
 
-def compare(res, sc, obs, ml):
+def compare(res, sc, obs, ml, stream="c15api"):
     mt = ml.split(" ") if ml else []
     blocks = obs["blocks"]
     for k, b in enumerate(blocks):
         want = impl_summary(b) if "raised" not in b else "error:" + b["raised"]
         got = mt[k] if k < len(mt) else None
         if got is None or (want != got and not (want.startswith("error:") and got.startswith(want))):
-            res.disagree("c15api", {"scenario": sc, "block": k, "op": {x: b[x] for x in b if x not in ("after",)}}, want, (got or ml[:120]))
+            res.disagree(stream, {"scenario": sc, "block": k, "op": {x: b[x] for x in b if x not in ("after",)}}, want, (got or ml[:120]))
             return False
         if "raised" in b:
             return True   # the model does not describe the half-updated state after a raise
@@ -658,18 +739,22 @@ def run_stream(res, ctx, n):
         acc.append((sc, obs))
     if not ctx["driver_ok"] or not acc:
         return
-    lines = ["c15api %d %s" % (len(o["blocks"]), " ".join(op_line(b) for b in o["blocks"])) for _sc, o in acc]
+    # the block log through the closed composite over BOTH downstreams: `down` (scripted routing; `C15_history_closed_partial`) and
+    # `downQ` (per-question routing, known answers, the four answer sets; `C15_history_closedQ_partial` and the third-clause theorems)
+    body = ["%d %s" % (len(o["blocks"]), " ".join(op_line(b) for b in o["blocks"])) for _sc, o in acc]
     try:
-        out = C.run_driver(lines)
+        out = C.run_driver(["c15api " + x for x in body] + ["c15apiq " + x for x in body])
     except C.DriverUnavailable as ex:
         res.notes.append("driver unavailable: %s" % ex)
         return
     nbad = 0
-    for (sc, obs), ml in zip(acc, out):
-        if not compare(res, sc, obs, ml):
-            nbad += 1
-            if nbad >= 5:
-                break
+    for stream, part in (("c15api", out[:len(acc)]), ("c15apiq", out[len(acc):])):
+        for (sc, obs), ml in zip(acc, part):
+            res.count("replayed-over:" + ("down" if stream == "c15api" else "downQ"))
+            if not compare(res, sc, obs, ml, stream):
+                nbad += 1
+                if nbad >= 5:
+                    break
     # the clauses of the composite invariant, evaluated on the states extracted from the real instance
     inv = [(sc, k, line) for sc, o in acc for k, line in o["inv"]]
     try:
